@@ -110,6 +110,53 @@ def two_datagrams_case(seq, tail):
     return []
 
 
+class Raising(Rec):
+    """an application whose handler fails on its k-th delivery (0-based), with the given exception type"""
+
+    def __init__(self, k, exc):
+        super().__init__()
+        self.k, self.exc = k, exc
+
+    def message_received(self, someip_message, addr, multicast):
+        super().message_received(someip_message, addr, multicast)
+        if len(self.got) - 1 == self.k:
+            raise self.exc("application handler failed")
+
+
+def raising_handler_case(k, excname, seq):
+    """the application's handler fails while a datagram is being delivered; whatever becomes of the rest of that
+    datagram, the endpoint must go on delivering the following datagrams completely and in order"""
+    import someip.header as hdr
+    exc = dict(RuntimeError=RuntimeError, KeyError=KeyError, ParseError=hdr.ParseError)[excname]
+    m = menu()
+    p = Raising(k, exc)
+    addr = ("192.0.2.5", 30501)
+    first = b"".join(refcodec.enc_someip(*m[i]) for i in (0, 1, 2))
+    try:
+        p.datagram_received(first, addr, False)
+    except Exception:  # noqa: BLE001  (the application's own exception may or may not propagate)
+        pass
+    got1 = [g[0] for g in p.got]
+    want1 = [mk(*m[i]) for i in (0, 1, 2)]
+    out = []
+    if got1 != want1[:len(got1)] or len(got1) < k + 1:
+        out.append(("datagram", "before-handler-failure", f"deliveries before the failing one: {len(got1)}, not a prefix of the datagram"))
+    n1 = len(p.got)
+    for rnd in range(2):
+        try:
+            p.datagram_received(b"".join(refcodec.enc_someip(*m[i]) for i in seq), ("192.0.2.6", 30502), True)
+        except Exception as e:  # noqa: BLE001
+            return out + [("datagram", f"after-handler-failure-raises-{type(e).__name__}", f"{type(e).__name__}: {e}")]
+        got = p.got[n1:]
+        want = [mk(*m[i]) for i in seq]
+        if [g[0] for g in got] != want or any(g[1] != ("192.0.2.6", 30502) or g[2] is not True for g in got):
+            out.append(("datagram", "deaf-after-handler-failure", f"after a {excname} raised by the application's handler on delivery "
+                        f"{k} the datagram no. {rnd + 2} delivered {len(got)} of {len(want)} messages"))
+            break
+        n1 = len(p.got)
+    return out
+
+
 def long_datagram_case(count):
     one = [refcodec.enc_someip(0x1000 + (i & 0xFF), i & 0xFFFF, 1, i & 0xFFFF, 1, 0x02, 0, b"") for i in range(count)]
     p = Rec()
@@ -187,6 +234,13 @@ def check(ctx):
         for t, tail in enumerate(TAILS[1:]):
             n += 1
             rec(two_datagrams_case(seq, tail), dict(kind="two-datagrams", seq=seq, tail=tail))
+    # (g) a failing application handler must not disturb the delivery of the following datagrams
+    for k in (0, 1, 2):
+        for excname in ("RuntimeError", "KeyError", "ParseError"):
+            for seq in ((0,), (4, 0), (1, 2, 5)):
+                n += 1
+                distinct.add(("raising", k, excname, seq))
+                rec(raising_handler_case(k, excname, seq), dict(kind="raising-handler", k=k, exc=excname, seq=seq))
     # (d) "any number of messages per datagram": as many empty-payload messages as a UDP datagram can hold
     for count in (255, 256, 1000, 2000, 4094):
         n += 1
@@ -210,6 +264,8 @@ def replay(ctx, body):
     case = body["case"]
     if case["kind"] == "two-datagrams":
         res = two_datagrams_case(tuple(case["seq"]), case["tail"])
+    elif case["kind"] == "raising-handler":
+        res = raising_handler_case(case["k"], case["exc"], tuple(case["seq"]))
     elif case["kind"] == "long-datagram":
         res = long_datagram_case(case["count"])
     elif case["kind"] == "datagram":
